@@ -48,6 +48,15 @@ def check_cat(out, vs, ms, cur, dens, drive_label, res, sig, note):
     for (d, n, lk) in c['files']:
         if d is not None and d == cur:
             return bad(res, sig + ':cat:prefix', '%s: current-directory file printed with prefix' % note)
+    # "current directory first": the files printed without a directory prefix are the current-directory group and must
+    # all come before every file printed with a prefix
+    seen_prefixed = False
+    for (d, n, lk) in c['files']:
+        if d is not None:
+            seen_prefixed = True
+        elif seen_prefixed:
+            return bad(res, sig + ':cat:current-directory-not-first', '%s: unprefixed file %r listed after a prefixed one: %r' % (
+                note, n, [(x[0], x[1]) for x in c['files']][:8]))
     # order: current directory first, then by directory and name case-insensitively.  A directory equal to the
     # current one only by case may be in either group (property is silent), so its key is compared loosely.
     keys = []
@@ -371,7 +380,7 @@ def fam_m5(tier):
             seen.add((canon, c[0]))
         files = [[n, d, bool(i % 2), 0, 0, 1, 2 + (len(c) - 1 - i)] for i, (d, n) in enumerate(c)]
         spec = {'kind': 'acorn', 'tracks': 40, 'spt': 10, 'ext': 'ssd', 'files': files, 'title': 'M5'}
-        for cur in (['$', 'A', 'a', 'Z'] if len(c) <= 2 else ['$', 'A']):
+        for cur in (['$', 'A', 'a', 'Z', 'b'] if len(c) <= 2 else ['$', 'A', 'a', 'b']):
             yield {'spec': spec, 'checks': ['cat', 'info'], 'dir': cur, 'sig': 'C02:M5:order'}
 
 
